@@ -581,7 +581,9 @@ int main(int argc, char **argv)
     memset(&sa, 0, sizeof sa);
     sa.sa_handler = on_alarm;
     sigaction(SIGALRM, &sa, NULL);
-    struct itimerval itv = {{0, 0}, {timeout_ms / 1000, (timeout_ms % 1000) * 1000}};
+    /* the watchdog keeps ringing every 50 ms after it went off, so that a SIGALRM that arrives while the
+     * tracer is not inside waitpid() cannot be lost */
+    struct itimerval itv = {{0, 50000}, {timeout_ms / 1000, (timeout_ms % 1000) * 1000}};
     setitimer(ITIMER_REAL, &itv, NULL);
     ptrace(PTRACE_SYSCALL, root, 0, 0);
 
@@ -589,6 +591,8 @@ int main(int argc, char **argv)
     char alive_at_root_exit[256] = "";
     int nalive = 1;
     while (nalive > 0) {
+        if (timed_out)
+            break;
         pid_t pid = waitpid(-1, &st, __WALL);
         if (pid < 0) {
             if (errno == EINTR && timed_out)
@@ -724,6 +728,10 @@ int main(int argc, char **argv)
         for (int i = 0; i < ntask; i++)
             if (T[i].alive)
                 kill(T[i].pid, SIGKILL);
+        {
+            struct itimerval off = {{0, 0}, {0, 0}};
+            setitimer(ITIMER_REAL, &off, NULL);
+        }
         while (waitpid(-1, &st, __WALL) > 0 || errno == EINTR)
             ;
     }
